@@ -9,7 +9,7 @@ typedef struct {
     int ncols;
     struct { int ptype, tlen, opt; const char* name; } col[RF_MAXC];
     int N;                               /* rows per row group */
-    int nrg;                             /* row groups (same shape each; rows offset by rg*N) */
+    int nrg;                             /* row groups (same shape each; rows offset by rg*N); -1 = a file without row groups (footer right after the magic) */
     uint64_t mask[RF_MAXC];              /* bit r set => row r null (opt columns) */
     int npages[RF_MAXC]; int page_levels[RF_MAXC][8];   /* 0 pages => single page */
     int enc[RF_MAXC];                    /* ENC_PLAIN / ENC_PLAIN_DICT / ENC_RLE_DICT / ... */
